@@ -1,5 +1,6 @@
 import Tmcg.Driver
 import Tmcg.Model.Rabin
+import Tmcg.Model.RabinGen
 /-
   Line-protocol handlers of area "rabin" (property C10); the line formats are listed at the top of
   harness/drv_rabin.cc.
@@ -190,7 +191,30 @@ def hCheck : Handler
       | some K => withO log fun O => showEB (check O (fun _ => pp = 1) K fuel))
   | _ => none
 
+/-- `[cand:0/1,…]`: the answers of `mpz_probab_prime_p` per candidate -/
+def pPrimeLog (s : String) : Option (List (Int × Bool)) := do
+  let l ← pList s
+  l.mapM fun e => match e.splitOn ":" with
+    | [c, a] => do let c ← pInt c; some (c, a = "1")
+    | _ => none
+
+/-- rabin.generate name email keysize nizk fuel [coins] [cand:ans] olog => sectext
+    (the primality oracle is replayed from the log; unknown candidates get both defaults) -/
+def hGenerate : Handler
+  | [name, email, keysize, nizk, fuel, coins, plog, log] => do
+    let name ← pText name; let email ← pText email; let keysize ← pNat keysize; let nizk ← pNat nizk
+    let fuel ← pNat fuel; let coins ← pList coins; let coins ← coins.mapM pHex
+    let plog ← pPrimeLog plog; let log ← pOLog log
+    let run (d : Bool) : String := withO log fun O =>
+      match RabinGen.generate O (fun x => (plog.lookup x).getD d) name email keysize (nizk = 1) fuel coins with
+      | .ok K => hexText (secText K)
+      | .error e => toString e
+    let a := run true; let b := run false
+    some (if a = b then a else "oracle-mismatch")
+  | _ => none
+
 def handlers : List (String × Handler) := [
+  ("rabin.generate", hGenerate),
   ("rabin.sqrtmp", hSqrtmp), ("rabin.sqrtmp.det", hSqrtmpDet), ("rabin.qrmn", hQrmn),
   ("rabin.sqrtmn.r", hSqrtmnR), ("rabin.sqrtmn.det", hSqrtmnDet),
   ("rabin.sqrtmn.fast", hSqrtmnFast), ("rabin.sqrtmn.fastall", hSqrtmnFastAll),
